@@ -164,7 +164,7 @@ def render_chain(draw, atoms, gaps, spaces=True):
 
 
 @st.composite
-def g_dom(draw, max_atoms=12, mode="valid", pools=None, fc_dense=False, neutral_root=True):
+def g_dom(draw, max_atoms=12, mode="valid", pools=None, fc_dense=False, neutral_root=True, fc_groups=False):
     """
     Expression of the evaluation domain of C04-C07: keys rc/hint/fc; `then` is binary and attaches one fc key to a
     bare hint or to an operand that contains an rc.
@@ -210,6 +210,10 @@ def g_dom(draw, max_atoms=12, mode="valid", pools=None, fc_dense=False, neutral_
         options = ["and", "and", "or", "xor"] + ["then"] * then_weight
         kind = draw(st.sampled_from(options))
         if kind == "then":
+            if fc_groups and size >= 3 and draw(st.sampled_from(range(3))) == 0:
+                # a bracketed composition of format constraints attached on the right, as a package of them yields it
+                group = [draw(st.sampled_from(["and", "or", "xor"])), [fc_atom(), fc_atom()]]
+                return ["then", [carrying(size - 2), group]]
             pair = [carrying(size - 1), fc_atom()]
             if draw(st.integers(0, 3)) == 0:
                 pair.reverse()
